@@ -92,6 +92,7 @@ def run_verus_unit(unit, tier, rlimit=None):
                 and not ln.strip().startswith("//"):
             res["assumptions"].append(f"{unit}.rs:{n}: {ln.strip()[:200]}")
     cmd = ["verus", path, "--output-json", "--time", "--error-format=json", "--multiple-errors", "20"]
+    rlimit = rlimit or a.get("rlimit")
     if rlimit: cmd += ["--rlimit", str(rlimit)]
     res["cmd"] = " ".join(cmd)
     try:
